@@ -403,7 +403,8 @@ def from_dict(d: Dict[str, Any]) -> Derivation:
     Args:
         d (dict): dictionary representation of a derivation
     """
-    return Derivation(*_from_dict(d))
+    udfnode = _from_dict(d)
+    return Derivation(*udfnode, head=udfnode._head, type=udfnode.type)
 
 
 ###############################################################################
